@@ -75,5 +75,9 @@ func runCheck(id, tier string) (code int) {
 	}
 	x := props.NewCtx(w, tier)
 	p.Run(x, r)
+	if tier == "thorough" {
+		runVariants(id, p, r)
+		replaySeeded(id, p, r)
+	}
 	return r.Finish()
 }
